@@ -225,7 +225,7 @@ def spStep (durable : Bool) : St × W → SpOp → St × W
      { w with ok := w.ok && w.restored.isNone && durable })
   | (s, w), .del sid =>
     (s, { w with deleted := w.deleted ++ [sid],
-                 ok := w.ok && durable && decide (sid ∉ w.deleted) &&
+                 ok := w.ok && durable && w.restored.isNone && decide (sid ∉ w.deleted) &&
                    s.sps.any (fun sp => decide (sp.sid = sid) && sp.persistent) })
   | (s, w), .restore sid =>
     match findSp s sid with
@@ -254,7 +254,7 @@ savepoint id) that is not staged for deletion -/
 def spHorizon (sps : List Sp) (w : W) : Option Nat :=
   ((sps.filter (fun sp => sp.valid && decide (sp.sid ∉ w.deleted))).head?).map (·.id)
 
-/-! ### commit -/
+/-! ### commit, as the sequence of bookkeeping actions the code performs -/
 
 def dataLost (w : W) (t : Txn) : List Nat := w.queued ++ diff w.base t.data
 def dataGain (w : W) (t : Txn) : List Nat := diff t.data w.base
@@ -265,107 +265,103 @@ def udfreedKept (s : St) (w : W) : List (Nat × Nat) :=
   | some r => upTo r s.udfreed
   | none => s.udfreed
 
+/-- `begin_write`: the transaction takes the next id -/
+def beginWrite (s : St) : St := { s with nextId := s.nextId + 1 }
+
+/-- `flush_and_close` of the data tree of transaction `n` and the record of the pages it made
+unreachable (kept in memory first: `record_unpersisted_data_freed`; a durable commit writes it to
+DATA_FREED_TABLE together with the older in-memory records, see `mergeStep`). The pages the data
+tree gained are tracked (`PageTracker`) if a savepoint existed when the transaction became dirty;
+they are kept with the in-memory allocation records (`record_unpersisted_allocations`; a durable
+commit writes them to DATA_ALLOCATED_TABLE, see `dallocStep`) -/
+def dataStep (s : St) (w : W) (t : Txn) (n : Nat) : St :=
+  { s with data := t.data, alloc := s.alloc ++ dataGain w t, dfreed := w.dfreed,
+           udfreed := udfreedKept s w ++ tag n (dataLost w t),
+           ualloc := s.ualloc ++ (if s.sps.any (·.valid) then tag n (dataGain w t) else []) }
+
+/-- `store_data_freed_pages` + `take_unpersisted_data_freed` of a durable commit -/
+def mergeStep (s : St) : St := { s with dfreed := s.dfreed ++ s.udfreed, udfreed := [] }
+
+/-- `oldest_live_read_transaction().next()` or the committing id -/
 def freeUntil (s : St) (n : Nat) : Nat :=
   match minOpt (liveIds s) with
   | some x => x + 1
   | none => n
 
-/-- state right after `TransactionalMemory::commit` of a durable commit `n`, before the tracker
-and savepoint state are updated and before the epilogue -/
-structure Mid where
-  alloc : List Nat
-  dfreed : List (Nat × Nat)
-  sfreed : List (Nat × Nat)
-  dalloc : List (Nat × Nat)
-  unproc : List Nat
-  horizon : Option Nat
-deriving Repr
+/-- `process_freed_pages`: the records below the horizon are released to the allocator -/
+def releaseStep (s : St) (fu : Nat) : St :=
+  { s with alloc := diff s.alloc (pagesOf (below fu s.dfreed) ++ pagesOf (below fu s.sfreed)),
+           dfreed := notBelow fu s.dfreed, sfreed := notBelow fu s.sfreed,
+           unproc := dropIds s.unproc (idsOf (below fu s.dfreed) ++ idsOf (below fu s.sfreed)) }
 
-def durableMain (s : St) (w : W) (t : Txn) (n : Nat) : Mid :=
-  -- store_data_freed_pages, take_unpersisted_data_freed
-  let df1 := w.dfreed ++ tag n (dataLost w t) ++ udfreedKept s w
-  -- process_freed_pages
-  let fu := freeUntil s n
-  let rel := pagesOf (below fu df1) ++ pagesOf (below fu s.sfreed)
-  let a2 := diff (s.alloc ++ dataGain w t) rel
-  -- flush_data_allocated_pages
-  let tracked := s.sps.any (·.valid)
-  let da1 := s.dalloc ++ s.ualloc ++ (if tracked then tag n (dataGain w t) else [])
-  let horizon := spHorizon s.sps w
-  let da2 := match horizon with
-    | some h => notBelow h da1
-    | none => []
-  -- system tree: gained pages; lost pages are recorded (quick-repair) or released after the commit
-  let a3 := a2 ++ diff t.sys s.sys
-  let a4 := diff a3 (diff (diff s.sys t.sys) t.sysRec)
-  { alloc := a4, dfreed := notBelow fu df1, sfreed := notBelow fu s.sfreed ++ tag n t.sysRec,
-    dalloc := da2, unproc := dropIds s.unproc (idsOf (below fu df1) ++ idsOf (below fu s.sfreed)),
-    horizon := horizon }
+def purge (horizon : Option Nat) (r : List (Nat × Nat)) : List (Nat × Nat) :=
+  match horizon with
+  | some h => notBelow h r
+  | none => []
 
-/-- the allocator as it is while the system tree of a durable commit is written: after
-`process_freed_pages`, which may hand the pages it released to the system tree -/
-def durableAllocBeforeSys (s : St) (w : W) (t : Txn) (n : Nat) : List Nat :=
-  let df1 := w.dfreed ++ tag n (dataLost w t) ++ udfreedKept s w
-  let fu := freeUntil s n
-  diff (s.alloc ++ dataGain w t) (pagesOf (below fu df1) ++ pagesOf (below fu s.sfreed))
+/-- `flush_data_allocated_pages`: the in-memory allocation records (with those of the committing
+transaction) go to DATA_ALLOCATED_TABLE; entries older than the oldest remaining savepoint are
+purged -/
+def dallocStep (s : St) (w : W) : St :=
+  { s with dalloc := purge (spHorizon s.sps w) (s.dalloc ++ s.ualloc), ualloc := [] }
 
 def persistentTable (sps : List Sp) (w : W) : List Sp :=
   sps.filter (fun sp => sp.persistent && decide (sp.sid ∉ w.deleted))
 
+/-- system tree of a durable commit and `TransactionalMemory::commit`: gained pages are
+allocated, lost pages are recorded (quick-repair) or released right after the commit; the state
+becomes the durable image; the unpersisted state and the pending non-durable commits are cleared -/
+def publishDurable (s : St) (w : W) (t : Txn) (n : Nat) : St :=
+  { s with
+    alloc := diff (s.alloc ++ diff t.sys s.sys) (diff (diff s.sys t.sys) t.sysRec),
+    sys := t.sys, sfreed := s.sfreed ++ tag n t.sysRec,
+    lastId := n, durId := n, upages := [], pca := [], pend := [],
+    img := { id := n, data := s.data, sys := t.sys, dfreed := s.dfreed,
+             sfreed := s.sfreed ++ tag n t.sysRec, dalloc := s.dalloc,
+             psps := persistentTable s.sps w, pspCounter := s.pspCounter, qr := t.qr } }
+
+/-- `apply_savepoint_state_on_commit` -/
+def applyStep (s : St) (w : W) : St := { s with sps := applySps s.sps w }
+
 /-- free horizon of the post-commit epilogue (`process_data_freed_pages_after_commit`) -/
 def epilogueUntil (s : St) (n : Nat) (horizon : Option Nat) : Nat :=
-  let fu := match minOpt (liveIds s) with
-    | some x => x + 1
-    | none => n + 1
   match horizon with
-  | some h => min fu (h + 1)
-  | none => fu
+  | some h => min (freeUntil s (n + 1)) (h + 1)
+  | none => freeUntil s (n + 1)
 
 /-- does the epilogue of commit `n` find anything to free in state `s` (the state after the
 commit proper)? -/
 def epilogueRuns (s : St) (n : Nat) (horizon : Option Nat) : Bool :=
   !(below (epilogueUntil s n horizon) s.dfreed).isEmpty
 
-/-- the post-commit epilogue: releases the data-freed records below its horizon and publishes the
-resulting system tree as the non-durable commit `n + 1` -/
-def epilogue (s : St) (t : Txn) (n : Nat) (horizon : Option Nat) : St :=
-  if epilogueRuns s n horizon then
-    let fu := epilogueUntil s n horizon
-    let e := below fu s.dfreed
-    let gain := diff t.sys2 s.sys
-    let lost := diff s.sys t.sys2
-    { s with
-      alloc := diff s.alloc (pagesOf e) ++ gain,
-      dfreed := notBelow fu s.dfreed,
-      sfreed := s.sfreed ++ tag (n + 1) lost,
-      sys := t.sys2,
-      upages := gain, pca := gain,
-      lastId := n + 1, nextId := n + 1,
-      pend := [(n + 1, n)],
-      unproc := dropIds s.unproc (idsOf e) ++ (if lost.isEmpty then [] else [n + 1]) }
-  else s
+def epiRelease (s : St) (fu : Nat) : St :=
+  { s with alloc := diff s.alloc (pagesOf (below fu s.dfreed)), dfreed := notBelow fu s.dfreed,
+           unproc := dropIds s.unproc (idsOf (below fu s.dfreed)) }
 
-/-- the allocator as it is while the epilogue writes the system tree -/
-def epilogueAllocBeforeSys (s : St) (n : Nat) (horizon : Option Nat) : List Nat :=
-  diff s.alloc (pagesOf (below (epilogueUntil s n horizon) s.dfreed))
-
-/-- state after `TransactionalMemory::commit`, `clear_pending_non_durable_commits`,
-`apply_savepoint_state_on_commit` of durable commit `n` -/
-def durableCommitted (s : St) (w : W) (t : Txn) (n : Nat) : St :=
-  let m := durableMain s w t n
-  let img : Image :=
-    { id := n, data := t.data, sys := t.sys, dfreed := m.dfreed, sfreed := m.sfreed,
-      dalloc := m.dalloc, psps := persistentTable s.sps w, pspCounter := s.pspCounter, qr := t.qr }
+/-- the epilogue publishes the system tree it rewrote as the non-durable commit `n + 1`, which
+pins the durable commit `n`; the pages it allocated are unpersisted (and remembered for the next
+durable commit to adopt), the pages it made unreachable go to SYSTEM_FREED_TABLE -/
+def epiPublish (s : St) (t : Txn) (n : Nat) : St :=
   { s with
-    nextId := n, lastId := n, durId := n,
-    alloc := m.alloc, data := t.data, sys := t.sys,
-    dfreed := m.dfreed, sfreed := m.sfreed, dalloc := m.dalloc,
-    upages := [], ualloc := [], udfreed := [], pca := [],
-    sps := applySps s.sps w, pend := [], unproc := m.unproc, img := img }
+    alloc := s.alloc ++ diff t.sys2 s.sys,
+    sfreed := s.sfreed ++ tag (n + 1) (diff s.sys t.sys2),
+    sys := t.sys2, upages := diff t.sys2 s.sys, pca := diff t.sys2 s.sys,
+    lastId := n + 1, nextId := n + 1, pend := [(n + 1, n)],
+    unproc := s.unproc ++ (if (diff s.sys t.sys2).isEmpty then [] else [n + 1]) }
+
+def epilogue (s : St) (t : Txn) (n : Nat) (horizon : Option Nat) : St :=
+  if epilogueRuns s n horizon then epiPublish (epiRelease s (epilogueUntil s n horizon)) t n else s
+
+/-- the states a durable commit `n` goes through -/
+def durableReleased (s : St) (w : W) (t : Txn) (n : Nat) : St :=
+  releaseStep (mergeStep (dataStep s w t n)) (freeUntil s n)
+
+def durableCommitted (s : St) (w : W) (t : Txn) (n : Nat) : St :=
+  applyStep (publishDurable (dallocStep (durableReleased s w t n) w) w t n) w
 
 def durableCommit (s : St) (w : W) (t : Txn) (n : Nat) : St :=
-  let c := durableCommitted s w t n
-  if t.epilogue then epilogue c t n (durableMain s w t n).horizon else c
+  if t.epilogue then epilogue (durableCommitted s w t n) t n (spHorizon s.sps w)
+  else durableCommitted s w t n
 
 /-- `oldest_live_read_nondurable_transaction().next()` or the committing id -/
 def freeUntilND (s : St) (n : Nat) : Nat :=
@@ -381,59 +377,62 @@ def scanFrom (s : St) (fu : Nat) : Nat :=
 
 def inRange (lo hi t : Nat) : Bool := decide (lo ≤ t) && decide (t < hi)
 
-/-- a non-durable commit `n` -/
-def nonDurableCommit (s : St) (w : W) (t : Txn) (n : Nat) : St :=
-  let lostD := dataLost w t
-  let gainD := dataGain w t
-  -- record_unpersisted_data_freed
-  let udf1 := udfreedKept s w ++ tag n lostD
+/-- in-memory data-freed entries a non-durable commit reclaims: in the scanned range and
+unpersisted (`process_unpersisted_data_freed` with `free_if_unpersisted`) -/
+def hitD (s : St) (lo hi : Nat) (e : Nat × Nat) : Bool := inRange lo hi e.1 && decide (e.2 ∈ s.upages)
+
+/-- SYSTEM_FREED_TABLE entries a non-durable commit reclaims
+(`process_freed_pages_nondurable_helper`) -/
+def hitS (s : St) (lo hi : Nat) (up : List Nat) (e : Nat × Nat) : Bool :=
+  inRange lo hi e.1 && decide (e.1 ∈ s.unproc) && decide (e.2 ∈ up)
+
+/-- `process_freed_pages_nondurable`: unpersisted pages named by records of transactions in the
+scanned range are released at once; their allocation records go with them -/
+def reclaimStep (s : St) (n : Nat) : St :=
   let fu := freeUntilND s n
   let lo := scanFrom s fu
-  -- process_unpersisted_data_freed with free_if_unpersisted
-  let hitD := udf1.filter (fun e => inRange lo fu e.1 && decide (e.2 ∈ s.upages))
-  let udf2 := udf1.filter (fun e => !(inRange lo fu e.1 && decide (e.2 ∈ s.upages)))
-  let up1 := diff s.upages (pagesOf hitD)
-  -- process_freed_pages_nondurable_helper on SYSTEM_FREED_TABLE
-  let cand := s.sfreed.filter (fun e => inRange lo fu e.1 && decide (e.1 ∈ s.unproc))
-  let hitS := cand.filter (fun e => decide (e.2 ∈ up1))
-  let sf1 := s.sfreed.filter (fun e => !(inRange lo fu e.1 && decide (e.1 ∈ s.unproc) && decide (e.2 ∈ up1)))
-  let up2 := diff up1 (pagesOf hitS)
-  let claimed := pagesOf hitD ++ pagesOf hitS
-  let unproc1 := dropIds s.unproc (idsOf (udf1.filter (fun e => inRange lo fu e.1)) ++ idsOf cand)
-  -- system tree
+  let up1 := diff s.upages (pagesOf (s.udfreed.filter (hitD s lo fu)))
+  let claimed := pagesOf (s.udfreed.filter (hitD s lo fu)) ++ pagesOf (s.sfreed.filter (hitS s lo fu up1))
+  { s with
+    alloc := diff s.alloc claimed,
+    udfreed := s.udfreed.filter (fun e => !hitD s lo fu e),
+    sfreed := s.sfreed.filter (fun e => !hitS s lo fu up1 e),
+    upages := diff s.upages claimed,
+    pca := diff s.pca claimed,
+    ualloc := dropPages s.ualloc claimed,
+    unproc := dropIds s.unproc (idsOf (s.udfreed.filter (fun e => inRange lo fu e.1)) ++
+      idsOf (s.sfreed.filter (fun e => inRange lo fu e.1 && decide (e.1 ∈ s.unproc)))) }
+
+/-- system tree of a non-durable commit and `TransactionalMemory::non_durable_commit`: lost
+system pages that are unpersisted are released right after the commit, the others go to
+SYSTEM_FREED_TABLE; the pages the transaction allocated become unpersisted; the commit pins its
+durable ancestor -/
+def publishND (s : St) (t : Txn) (n : Nat) (gainD : List Nat) (noDataFreed : Bool) : St :=
   let gainS := diff t.sys s.sys
   let lostS := diff s.sys t.sys
-  let post := inter lostS up2
-  let recS := diff lostS up2
-  let tracked := s.sps.any (·.valid)
+  let post := inter lostS s.upages
+  let recS := diff lostS s.upages
   { s with
-    nextId := n, lastId := n,
-    alloc := diff (diff (s.alloc ++ gainD) claimed ++ gainS) post,
-    data := t.data, sys := t.sys,
-    dfreed := w.dfreed,
-    sfreed := sf1 ++ tag n recS,
-    upages := diff (up2 ++ gainD ++ gainS) post,
-    ualloc := dropPages s.ualloc claimed ++ (if tracked then tag n gainD else []),
-    udfreed := udf2,
-    pca := diff (diff s.pca claimed) post,
-    sps := applySps s.sps w,
+    lastId := n,
+    alloc := diff (s.alloc ++ gainS) post,
+    sys := t.sys,
+    sfreed := s.sfreed ++ tag n recS,
+    upages := diff (s.upages ++ gainD ++ gainS) post,
+    pca := diff s.pca post,
     pend := s.pend ++ [(n, s.durId)],
-    unproc := unproc1 ++ (if lostD.isEmpty && recS.isEmpty then [] else [n]) }
+    unproc := s.unproc ++ (if noDataFreed && recS.isEmpty then [] else [n]) }
 
-/-- the allocator as it is while a non-durable commit writes the system tree -/
-def nonDurableAllocBeforeSys (s : St) (w : W) (t : Txn) (n : Nat) : List Nat :=
-  let udf1 := udfreedKept s w ++ tag n (dataLost w t)
-  let fu := freeUntilND s n
-  let lo := scanFrom s fu
-  let hitD := udf1.filter (fun e => inRange lo fu e.1 && decide (e.2 ∈ s.upages))
-  let up1 := diff s.upages (pagesOf hitD)
-  let hitS := s.sfreed.filter (fun e => inRange lo fu e.1 && decide (e.1 ∈ s.unproc) && decide (e.2 ∈ up1))
-  diff (s.alloc ++ dataGain w t) (pagesOf hitD ++ pagesOf hitS)
+def nonDurableReclaimed (s : St) (w : W) (t : Txn) (n : Nat) : St :=
+  reclaimStep (dataStep s w t n) n
+
+def nonDurableCommit (s : St) (w : W) (t : Txn) (n : Nat) : St :=
+  applyStep (publishND (nonDurableReclaimed s w t n) t n (dataGain w t) (dataLost w t).isEmpty) w
 
 def commit (s : St) (t : Txn) : St :=
-  let n := s.nextId + 1
-  let (s1, w) := runSpOps t.durable s t.spOps
-  if t.durable then durableCommit s1 w t n else nonDurableCommit s1 w t n
+  let s0 := beginWrite s
+  let n := s0.nextId
+  let sw := runSpOps t.durable s0 t.spOps
+  if t.durable then durableCommit sw.1 sw.2 t n else nonDurableCommit sw.1 sw.2 t n
 
 /-! ### the other operations -/
 
@@ -478,27 +477,30 @@ def init : St :=
 def disjoint (a b : List Nat) : Bool := a.all (fun p => decide (p ∉ b))
 def subset (a b : List Nat) : Bool := a.all (fun p => decide (p ∈ b))
 
-/-- well-formedness of a committing write transaction -/
+/-- well-formedness of a committing write transaction: the savepoint operations were accepted,
+the new trees are duplicate-free lists, and every page a tree gained was free in the allocator at
+the time the commit wrote that tree -/
 def commitGuard (s : St) (t : Txn) : Bool :=
-  let n := s.nextId + 1
-  let (s1, w) := runSpOps t.durable s t.spOps
+  let s0 := beginWrite s
+  let n := s0.nextId
+  let sw := runSpOps t.durable s0 t.spOps
+  let s1 := sw.1
+  let w := sw.2
   w.ok && t.data.Nodup && t.sys.Nodup &&
   -- pages the data tree gained were free when the transaction allocated them
   disjoint (dataGain w t) s.alloc &&
-  -- only a durable commit saves the allocator state, creates or deletes persistent savepoints,
-  -- and only the recorded part of the lost system pages is an input
+  -- only a quick-repair commit records lost system pages before it is durable
   subset t.sysRec (diff s.sys t.sys) && t.sysRec.Nodup && (t.qr || t.sysRec.isEmpty) &&
   (if t.durable then
     -- pages the system tree gained were free while the commit wrote it
-    disjoint (diff t.sys s1.sys) (durableAllocBeforeSys s1 w t n) &&
+    disjoint (diff t.sys s.sys) (durableReleased s1 w t n).alloc &&
     (let c := durableCommitted s1 w t n
-     let h := (durableMain s1 w t n).horizon
+     let h := spHorizon s1.sps w
      if t.epilogue && epilogueRuns c n h then
-       t.sys2.Nodup && disjoint (diff t.sys2 t.sys) (epilogueAllocBeforeSys c n h)
+       t.sys2.Nodup && disjoint (diff t.sys2 t.sys) (epiRelease c (epilogueUntil c n h)).alloc
      else true)
   else
-    !t.qr && t.sysRec.isEmpty &&
-    disjoint (diff t.sys s1.sys) (nonDurableAllocBeforeSys s1 w t n))
+    !t.qr && disjoint (diff t.sys s.sys) (nonDurableReclaimed s1 w t n).alloc)
 
 def guardB (s : St) : Op → Bool
   | .commit t => commitGuard s t
